@@ -913,6 +913,27 @@ fn build_sent() -> Vec<Sent> {
     }
     cx::<f32>(&mut out);
     cx::<f64>(&mut out);
+    // BEVE bodies that are no numeric array at all, or a generic (untyped) array because its elements are not
+    // of one numeric type: wrong for every receiving element type
+    let others: [(&'static str, Value); 12] = [
+        ("generic:[1,2.5,3]", json!([1, 2.5, 3])),
+        ("generic:[null,1.0]", json!([null, 1.0])),
+        ("generic:[[1.0],[2.0]]", json!([[1.0], [2.0]])),
+        ("generic:[\"a\",\"b\"]", json!(["a", "b"])),
+        ("generic:[true,false]", json!([true, false])),
+        ("generic:[1,\"a\"]", json!([1, "a"])),
+        ("generic:[{}]", json!([{}])),
+        ("object", json!({"a": [1, 2]})),
+        ("scalar:1.5", json!(1.5)),
+        ("scalar:7", json!(7)),
+        ("string", json!("xyz")),
+        ("null", json!(null)),
+    ];
+    for (ty, v) in others {
+        let n = v.as_array().map(|a| a.len()).unwrap_or(1);
+        let msg = Message::builder().id(REQ_ID).query_str(WRONG_PATH).query_format_code(QueryFormat::JsonPointer as u16).body_beve(&v).expect("body_beve").build();
+        out.push(Sent { ty, complex: false, client: 2, n, msg });
+    }
     out
 }
 
